@@ -134,9 +134,6 @@ type ListConfig struct {
 	IndentLevel  int        // 缩进级别（0-8）
 }
 
-// 全局编号管理器
-var globalNumberingManager *NumberingManager
-
 // NumberingManager 编号管理器
 type NumberingManager struct {
 	nextAbstractNumID int
@@ -145,17 +142,37 @@ type NumberingManager struct {
 	numInstances      map[string]*NumInstance
 }
 
-// getNumberingManager 获取全局编号管理器
-func getNumberingManager() *NumberingManager {
-	if globalNumberingManager == nil {
-		globalNumberingManager = &NumberingManager{
+// clone 复制编号管理器：登记表是新的，登记后的编号定义不再被修改，可以共享
+func (m *NumberingManager) clone() *NumberingManager {
+	if m == nil {
+		return nil
+	}
+	c := &NumberingManager{
+		nextAbstractNumID: m.nextAbstractNumID,
+		nextNumID:         m.nextNumID,
+		abstractNums:      make(map[string]*AbstractNum, len(m.abstractNums)),
+		numInstances:      make(map[string]*NumInstance, len(m.numInstances)),
+	}
+	for key, abstractNum := range m.abstractNums {
+		c.abstractNums[key] = abstractNum
+	}
+	for id, instance := range m.numInstances {
+		c.numInstances[id] = instance
+	}
+	return c
+}
+
+// getNumberingManager 获取本文档的编号管理器（每个文档独立，互不影响）
+func (d *Document) getNumberingManager() *NumberingManager {
+	if d.numberingManager == nil {
+		d.numberingManager = &NumberingManager{
 			nextAbstractNumID: 0,
 			nextNumID:         1,
 			abstractNums:      make(map[string]*AbstractNum),
 			numInstances:      make(map[string]*NumInstance),
 		}
 	}
-	return globalNumberingManager
+	return d.numberingManager
 }
 
 // AddListItem 添加列表项
@@ -277,7 +294,7 @@ func (d *Document) initializeNumbering() {
 
 // getOrCreateNumbering 获取或创建编号定义
 func (d *Document) getOrCreateNumbering(config *ListConfig) string {
-	manager := getNumberingManager()
+	manager := d.getNumberingManager()
 
 	// 生成抽象编号键
 	abstractKey := fmt.Sprintf("%s_%s_%d_%d", config.Type, config.BulletSymbol, config.IndentLevel, config.StartNumber)
@@ -373,7 +390,7 @@ func (d *Document) createLevel(levelIndex int, config *ListConfig) *Level {
 
 // updateNumberingFile 更新编号定义文件
 func (d *Document) updateNumberingFile() {
-	manager := getNumberingManager()
+	manager := d.getNumberingManager()
 
 	numbering := &Numbering{
 		Xmlns:              "http://schemas.openxmlformats.org/wordprocessingml/2006/main",
@@ -420,7 +437,7 @@ func (d *Document) addNumberingRelationship() {
 func (d *Document) RestartNumbering(numID string) {
 	// 重置编号计数器
 	// 在实际实现中，需要创建新的编号实例来重置计数
-	manager := getNumberingManager()
+	manager := d.getNumberingManager()
 
 	// 创建新的编号实例
 	newNumID := strconv.Itoa(manager.nextNumID)
